@@ -131,6 +131,7 @@ class SimConn:
         self.tx_total = 0
         self.peer_eof = False
         self.peer_reset = False
+        self.peer_closed_at: float | None = None
         self.write_after_close = 0
         self.dropped_bytes = 0
         self.drop_writes = False
@@ -186,6 +187,7 @@ class SimConn:
         if self.peer_eof or self.peer_reset:
             return
         self.peer_eof = True
+        self.peer_closed_at = self.net.now()
         self.net.fired(f"{self.kind}_fin")
         self.reader.feed_eof()
 
@@ -193,6 +195,8 @@ class SimConn:
         if self.peer_reset:
             return
         self.peer_reset = True
+        if self.peer_closed_at is None:
+            self.peer_closed_at = self.net.now()
         self.net.fired(f"{self.kind}_rst")
         if not self.peer_eof:
             self.reader.set_exception(
